@@ -233,7 +233,33 @@ func (f *g2lFn) callFn(b *binds, callee *g2lFn, args []string, at ast.Node) stri
 // follow when control falls off the end of the statement list.
 
 func (f *g2lFn) name(id *ast.Ident) string {
-	return leanIdent(id.Name)
+	var o types.Object = f.p.info.Defs[id]
+	if o == nil {
+		o = f.p.info.Uses[id]
+	}
+	if o == nil || id.Name == "_" {
+		return leanIdent(id.Name)
+	}
+	return f.varName(o)
+}
+
+// varName gives every Go variable OBJECT its own Lean name: a second variable with the same Go name (shadowing in an
+// inner scope) gets a numeric suffix, so that inlined continuations never see the wrong binding.
+func (f *g2lFn) varName(o types.Object) string {
+	if n, ok := f.objNames[o]; ok {
+		return n
+	}
+	if _, ok := o.(*types.Var); !ok {
+		return leanIdent(o.Name())
+	}
+	base := leanIdent(o.Name())
+	n := base
+	for i := 1; f.usedName[n]; i++ {
+		n = fmt.Sprintf("%s_%d", base, i)
+	}
+	f.usedName[n] = true
+	f.objNames[o] = n
+	return n
 }
 
 func (f *g2lFn) retTerm(vals string) []string {
@@ -249,7 +275,7 @@ func (f *g2lFn) retTerm(vals string) []string {
 func (f *g2lFn) namedTuple() string {
 	parts := []string{}
 	for _, r := range f.results {
-		parts = append(parts, leanIdent(r.Name()))
+		parts = append(parts, f.varName(r))
 	}
 	return tuple(parts)
 }
@@ -429,8 +455,8 @@ func (f *g2lFn) shareK(k kont, uses int, vars []*types.Var, pre *[]string) kont 
 	name := f.fresh("k")
 	params, argl := []string{}, []string{}
 	for _, v := range vars {
-		params = append(params, fmt.Sprintf("(%s : %s)", leanIdent(v.Name()), f.leanType(v.Type(), f.fd)))
-		argl = append(argl, leanIdent(v.Name()))
+		params = append(params, fmt.Sprintf("(%s : %s)", f.varName(v), f.leanType(v.Type(), f.fd)))
+		argl = append(argl, f.varName(v))
 	}
 	if len(params) == 0 {
 		params = []string{"(_ : Unit)"}
